@@ -5,6 +5,7 @@
 package fakert
 
 import (
+	"bytes"
 	"context"
 	"encoding/binary"
 	"errors"
@@ -234,6 +235,17 @@ type Fake struct {
 	metaFired  bool
 	honorCtx   bool
 	produceCnt int
+
+	expected   map[uint64]kafka.Message // submitted messages by id (nil = no check)
+	recAnomaly string                   // first record/attribute mismatch seen
+	acked      map[uint64]AckedAt       // where every acknowledged id was written
+}
+
+// AckedAt is the place an acknowledged message was written to, as answered to
+// the client (BaseOffset of the response + index in the batch).
+type AckedAt struct {
+	TP     TP
+	Offset int64
 }
 
 // New builds a fake cluster with topics "t0".."t<n-1>" having parts[i]
@@ -246,6 +258,7 @@ func New(hist *History, parts []int) *Fake {
 		scripts:  map[TP][]Reaction{},
 		logs:     map[TP][]uint64{},
 		touched:  map[TP]bool{},
+		acked:    map[uint64]AckedAt{},
 	}
 	for i, n := range parts {
 		name := fmt.Sprintf("t%d", i)
@@ -260,6 +273,31 @@ func (f *Fake) SetScript(tp TP, script []Reaction) {
 	f.mu.Lock()
 	defer f.mu.Unlock()
 	f.scripts[tp] = append([]Reaction(nil), script...)
+}
+
+// SetExpected registers the submitted messages by id: every record of a
+// produce request is then compared with its message (key, value, time,
+// headers); the first difference is kept for RecordAnomaly.
+func (f *Fake) SetExpected(m map[uint64]kafka.Message) {
+	f.mu.Lock()
+	defer f.mu.Unlock()
+	f.expected = m
+}
+
+// RecordAnomaly returns a description of the first record that differed from
+// its submitted message, "" if there was none.
+func (f *Fake) RecordAnomaly() string {
+	f.mu.Lock()
+	defer f.mu.Unlock()
+	return f.recAnomaly
+}
+
+// Acked tells where the message id was written by its acknowledged attempt.
+func (f *Fake) Acked(id uint64) (AckedAt, bool) {
+	f.mu.Lock()
+	defer f.mu.Unlock()
+	a, ok := f.acked[id]
+	return a, ok
 }
 
 // SetHonorCtx makes metadata requests fail with ctx.Err() when the caller's
@@ -388,39 +426,92 @@ func (f *Fake) metadata(ctx context.Context, r *metadata.Request) (kafka.Respons
 	return res, nil
 }
 
-// readIDs drains the record set of a produce request and returns the message
-// ids (first 8 bytes of every value, big endian).
-func readIDs(rs *protocol.RecordSet) ([]uint64, error) {
-	var ids []uint64
+// VidHeader is the header that carries the message id (8 bytes, big endian)
+// when the value does not.
+const VidHeader = "vid"
+
+// MessageID extracts the id of a message: header "vid" when present, else the
+// first 8 bytes of the value; ok is false when there is neither.
+func MessageID(value []byte, headers []protocol.Header) (id uint64, ok bool) {
+	for _, h := range headers {
+		if h.Key == VidHeader && len(h.Value) == 8 {
+			return binary.BigEndian.Uint64(h.Value), true
+		}
+	}
+	if len(value) >= 8 {
+		return binary.BigEndian.Uint64(value), true
+	}
+	return 0, false
+}
+
+// rec is a record as received in a produce request.
+type rec struct {
+	id       uint64
+	key      []byte
+	keyNil   bool
+	value    []byte
+	valueNil bool
+	time     time.Time
+	headers  []protocol.Header
+}
+
+// readRecords drains the record set of a produce request.
+func readRecords(rs *protocol.RecordSet) ([]rec, error) {
+	var recs []rec
 	if rs.Records == nil {
 		return nil, nil
 	}
 	for {
-		rec, err := rs.Records.ReadRecord()
+		r, err := rs.Records.ReadRecord()
 		if err == io.EOF {
-			return ids, nil
+			return recs, nil
 		}
 		if err != nil {
-			return ids, err
+			return recs, err
 		}
-		var v []byte
-		if rec.Value != nil {
-			v, err = protocol.ReadAll(rec.Value)
-			if err != nil {
-				return ids, err
+		x := rec{keyNil: r.Key == nil, valueNil: r.Value == nil, time: r.Time}
+		if r.Key != nil {
+			if x.key, err = protocol.ReadAll(r.Key); err != nil {
+				return recs, err
 			}
+			r.Key.Close()
 		}
-		if rec.Key != nil {
-			rec.Key.Close()
+		if r.Value != nil {
+			if x.value, err = protocol.ReadAll(r.Value); err != nil {
+				return recs, err
+			}
+			r.Value.Close()
 		}
-		if rec.Value != nil {
-			rec.Value.Close()
+		for _, h := range r.Headers { // the slice may be reused by the reader
+			x.headers = append(x.headers, protocol.Header{Key: h.Key, Value: append([]byte(nil), h.Value...)})
 		}
-		if len(v) < 8 {
-			return ids, fmt.Errorf("fakert: record value of %d bytes carries no id", len(v))
+		id, ok := MessageID(x.value, x.headers)
+		if !ok {
+			return recs, fmt.Errorf("fakert: record with a value of %d bytes and no vid header carries no id", len(x.value))
 		}
-		ids = append(ids, binary.BigEndian.Uint64(v))
+		x.id = id
+		recs = append(recs, x)
 	}
+}
+
+// diffRecord compares a received record with the submitted message.
+func diffRecord(x rec, m kafka.Message) string {
+	switch {
+	case x.keyNil != (m.Key == nil) || !bytes.Equal(x.key, m.Key):
+		return fmt.Sprintf("id %x: key %x (nil=%v), submitted %x (nil=%v)", x.id, x.key, x.keyNil, m.Key, m.Key == nil)
+	case x.valueNil != (m.Value == nil) || !bytes.Equal(x.value, m.Value):
+		return fmt.Sprintf("id %x: value of %d bytes (nil=%v), submitted %d bytes (nil=%v)", x.id, len(x.value), x.valueNil, len(m.Value), m.Value == nil)
+	case !m.Time.IsZero() && x.time.UnixMilli() != m.Time.UnixMilli():
+		return fmt.Sprintf("id %x: time %d ms, submitted %d ms", x.id, x.time.UnixMilli(), m.Time.UnixMilli())
+	case len(x.headers) != len(m.Headers):
+		return fmt.Sprintf("id %x: %d headers, submitted %d", x.id, len(x.headers), len(m.Headers))
+	}
+	for i, h := range x.headers {
+		if h.Key != m.Headers[i].Key || !bytes.Equal(h.Value, m.Headers[i].Value) {
+			return fmt.Sprintf("id %x: header %d is %q=%x, submitted %q=%x", x.id, i, h.Key, h.Value, m.Headers[i].Key, m.Headers[i].Value)
+		}
+	}
+	return ""
 }
 
 func (f *Fake) produce(ctx context.Context, r *produce.Request) (kafka.Response, error) {
@@ -430,9 +521,13 @@ func (f *Fake) produce(ctx context.Context, r *produce.Request) (kafka.Response,
 	topic := r.Topics[0].Topic
 	part := &r.Topics[0].Partitions[0]
 	tp := TP{Topic: topic, Partition: int(part.Partition)}
-	ids, err := readIDs(&part.RecordSet)
+	recs, err := readRecords(&part.RecordSet)
 	if err != nil {
 		return nil, err
+	}
+	ids := make([]uint64, len(recs))
+	for i := range recs {
+		ids[i] = recs[i].id
 	}
 
 	// Take the reaction first (FIFO per partition, in arrival order), then
@@ -445,6 +540,19 @@ func (f *Fake) produce(ctx context.Context, r *produce.Request) (kafka.Response,
 	}
 	f.touched[tp] = true
 	f.produceCnt++
+	if f.expected != nil && f.recAnomaly == "" {
+		for _, x := range recs {
+			m, ok := f.expected[x.id]
+			if !ok {
+				f.recAnomaly = fmt.Sprintf("id %x was never submitted", x.id)
+				break
+			}
+			if d := diffRecord(x, m); d != "" {
+				f.recAnomaly = d
+				break
+			}
+		}
+	}
 	f.mu.Unlock()
 
 	if react.Delay > 0 {
@@ -463,6 +571,11 @@ func (f *Fake) produce(ctx context.Context, r *produce.Request) (kafka.Response,
 	}
 	if applied {
 		f.logs[tp] = append(f.logs[tp], ids...)
+	}
+	if react.Kind == AppliedAcked {
+		for i, id := range ids {
+			f.acked[id] = AckedAt{TP: tp, Offset: base + int64(i)}
+		}
 	}
 	seen := 0        // encoded
 	wire := int16(0) // partition ErrorCode of the response
